@@ -21,6 +21,8 @@ THEOREMS = [
     "multi_key_in_range", "multi_key_in_range_refuted",
     "liveness_bound", "liveness",
     "add_keys_within_cap_fetches_exactly_unheld", "add_keys_idle_clean",
+    "chan_delivers_all", "try_send_loses_report", "timed_out_report_delivered", "agree_deferred_sound",
+    "put_arm_order", "put_arm_wrong_order_refuted", "run_items_sound",
 ]
 IMPORTS = "Require Import V.model.Fetcher."
 RULE = ("histories of 1-60 primitive operations on one fetcher: 2-4 holders, 3-40 keys (real 256-bit XOR "
@@ -29,7 +31,11 @@ RULE = ("histories of 1-60 primitive operations on one fetcher: 2-4 holders, 3-4
         "divergent versions; completions fed back from the real in-flight set (matching / other type / early), "
         "range updates at exact key distances +-1, fullness updates, clock advances 1 s-1000 s kept 2 s away from "
         "every deadline; directed scripts: F15 fast path, timeouts with queue drop, saturation beyond the cap, "
-        "re-advertising rounds (liveness), exhaustive short histories over 3 keys x 2 holders (thorough). "
+        "re-advertising rounds (liveness), back-pressure (NetworkEvent channel of capacity 1-3 kept full while fetches "
+        "time out, drained at the end), driver-level histories (REAL SwarmDriver::handle_local_cmd PutLocalRecord / "
+        "FetchCompleted arms around the driver-owned fetcher, record store filled to max_records = 16384 with keys "
+        "closer than 2^255, advertised keys farther / a few nearer, arrivals refused for MaxRecords or accepted by "
+        "eviction), exhaustive short histories over 3 keys x 2 holders (thorough). "
         "A case is distinct/non-trivial by (multiset of op kinds, max in-flight bucket, max queue bucket, "
         "events seen, fast path taken, cap reached)")
 ASSUMPTIONS = [
@@ -40,6 +46,12 @@ ASSUMPTIONS = [
     "them as sha256(node) xor sha256(key)); collision-freedom of SHA-256 is a reading, not an axiom",
     "hash-map iteration order is not controlled: the acceptor admits every order, the transcription "
     "`schedule_code iter` is proved to be accepted for every iteration order `iter`",
+    "the NetworkEvent channel is modelled as a bounded FIFO queue plus FIFO waiting senders (tokio mpsc); the harness "
+    "owns the receiver and decides when it drains; task scheduling of the spawned senders is the current-thread "
+    "runtime's",
+    "driver-level cases: the record store's answers (MaxRecords, farthest record, responsible range) are data of "
+    "the arm item; the store itself is C10's subject; real time elapsed inside a driver step is undone on the "
+    "stored deadlines (hook rewind_micros) so that only the harness's clock advances count",
     "liveness is proved under explicit fairness premises (finite universe with one version per key, responsive "
     "holders: nothing in flight has expired at a round, fetches in flight after a round are stored before the next "
     "one, the queued entry has not passed PENDING_TIMEOUT, the record stays in range); bound = "
@@ -271,6 +283,71 @@ def liveness_script(rng, consts):
     return w.case(ops, "liveness", live={"k": target, "t": 0, "h": 0, "bound": -(-nk // consts[0]) + 1})
 
 
+def backpressure_script(rng, consts):
+    """the NetworkEvent channel is small and full while fetches time out: every timed-out holder must still be
+    reported, exactly once, as soon as the consumer drains the channel"""
+    w = World(rng, rng.choice([6, 25]), 4, consts, kinds=None)
+    nk = len(w.keys)
+    F = consts[1]
+    chan = rng.choice([1, 1, 2, 3])
+    ops = [{"op": "add", "h": 0, "inc": [[i, w.kind[i]] for i in range(nk)], "held": [], "nodrain": True}]
+    ops += age_op(w, F // 2)
+    for a in ops[-1:]:
+        a["nodrain"] = True
+    ops.append({"op": "add", "h": 1, "inc": [[rng.randrange(nk), 0]], "held": [], "nodrain": True})
+    ops.append({"op": "add", "h": 2, "inc": [[rng.randrange(nk), 1]], "held": [], "nodrain": True})
+    ops += age_op(w, F * 3 // 5)                 # holder 0's fetches have timed out
+    ops[-1]["nodrain"] = True
+    ops.append(dict(rng.choice([{"op": "next"}, {"op": "put", "k": 0, "t": w.kind[0]}]), nodrain=True))
+    ops += age_op(w, F // 2)                     # now the single fetches of holders 1 and 2 as well
+    ops[-1]["nodrain"] = True
+    ops.append({"op": "next", "nodrain": rng.random() < 0.7})
+    if rng.random() < 0.5:
+        ops.append({"op": "add", "h": 3, "inc": [[rng.randrange(nk), 0]], "held": [], "nodrain": True})
+        ops += age_op(w, F * 3 // 2)
+        ops[-1]["nodrain"] = True
+        ops.append({"op": "next", "nodrain": True})
+    return w.case(ops, "backpressure", chan=chan, prefill=rng.choice([chan, chan, max(chan - 1, 0)]), deferred=True)
+
+
+def driver_script(rng, consts, kp_seed, peer_hex, full=True):
+    """the PutLocalRecord / FetchCompleted arms of the REAL SwarmDriver::handle_local_cmd around the
+    driver-owned fetcher, against a store filled to max_records with keys closer than `below`"""
+    w = World(rng, 0, 3, consts, kinds=[])
+    w.self_ = peer_hex
+    nk = rng.choice([24, 28, 40])
+    # the store holds MAX_RECORDS generated keys closer than 2^255; `split` keys of the case are nearer than
+    # that (accepted by evicting the farthest record), the others are farther than everything held (refused)
+    split = rng.choice([0, 0, 3, 8])
+    half = 1 << 255
+    near, farl = [], []
+    while len(near) < split or len(farl) < nk - split:
+        k = rng.randbytes(32).hex()
+        (near if dist_py(peer_hex, k) < half else farl).append(k)
+    w.keys = near[:split] + farl[:nk - split]
+    w.dist = [dist_py(peer_hex, k) for k in w.keys]
+    w.order = sorted(range(nk), key=lambda i: w.dist[i])
+    w.kind = [0] * nk
+    below = half
+    fill_n = 16384 if full else rng.choice([0, 100])
+    ops = []
+    o = w.order
+    ops.append({"op": "add", "h": 0, "inc": [[i, 0] for i in o[:rng.choice([22, 22, 24, nk])]]})
+    if rng.random() < 0.5:
+        ops.append({"op": "add", "h": 1, "inc": [[i, 0] for i in rng.sample(range(nk), 6)]})
+    ops += age_op(w, rng.choice([1000, consts[1] // 2]))
+    arrivals = [o[0], o[1]] + rng.sample(o[:20], 3) + [o[split + 1] if split + 1 < nk else o[2]]
+    rng.shuffle(arrivals)
+    for k in arrivals[:rng.randint(2, 5)]:
+        ops.append({"op": "put", "k": k, "t": 0})
+        if rng.random() < 0.3:
+            ops.append({"op": "early", "k": rng.choice(o[:24]), "t": 0})
+        if rng.random() < 0.3:
+            ops.append({"op": "add", "h": rng.randrange(3), "inc": [[i, 0] for i in rng.sample(range(nk), 5)]})
+    return w.case(ops, "driver-full" if full else "driver", mode="driver", kp_seed=kp_seed,
+                  fill={"n": fill_n, "seed": rng.randrange(1 << 30), "below": str(below)})
+
+
 def exhaustive_cases(rng, consts, length, limit):
     """all histories of `length` ops over a small alphabet on 3 keys x 2 holders (sampled down to limit)."""
     w = World(rng, 3, 2, consts, kinds=[0, 2, 0])
@@ -307,7 +384,11 @@ def gen(ctx):
     n_rand, n_adv, n_deep, n_script = (170, 60, 28, 8) if quick else (3000, 1000, 400, 100)
     for _ in range(n_script):
         cases += [timeout_script(rng, consts), saturate_script(rng, consts), liveness_script(rng, consts),
-                  f15_script(rng, consts, rng.random() < 0.3)]
+                  f15_script(rng, consts, rng.random() < 0.3), backpressure_script(rng, consts)]
+    # driver-level histories (real SwarmDriver + real record store filled to max_records)
+    for j in range(6 if quick else 60):
+        seed = rng.randrange(1, 200)
+        cases.append(driver_script(rng, consts, seed, ctx.c08_peer(seed), full=(j % 3 != 2)))
     for _ in range(n_rand):
         cases.append(random_history(rng, consts))
     for _ in range(n_adv):
@@ -360,9 +441,19 @@ def oracle(c, o):
     first_inflight_round = None
     rounds = 0
     live = c.get("live")
+    deferred = bool(c.get("deferred"))
+    expected_reports, delivered_reports = [], []
     for n, st in enumerate(o["steps"]):
         op = st["op"]
         kind = op["op"]
+        # the PutLocalRecord arm of handle_local_cmd: an arrival, preceded by a fullness update when the store
+        # refused the record for MaxRecords, followed by a range update when the store has a responsible range
+        arm = None
+        if kind == "putarm":
+            arm, kind = op, "put"
+        arm_far = None          # the store's farthest record's distance handed to set_farthest_on_full
+        if arm and arm["res"] == "max" and arm["far_dist"] is not None:
+            arm_far = int(arm["far_dist"])
         tbf, ong = _state(st)
         now = int(st["now"])
         far = None if st["far"] is None else int(st["far"])
@@ -387,6 +478,8 @@ def oracle(c, o):
                 return True
             if kind == "far" and op["k"] is not None and (pre_far is None or dist[op["k"]] < pre_far) \
                     and dist[kt[0]] > dist[op["k"]]:
+                return True
+            if arm_far is not None and (pre_far is None or arm_far < pre_far) and dist[kt[0]] > arm_far:
                 return True
             return False
 
@@ -420,7 +513,15 @@ def oracle(c, o):
         # ---- timeouts: holder reported, its queue dropped, nobody else accused
         expired_holders = {e[0] for kt, e in pre_ong.items() if sched and e[1] < now and not removed_by_op(kt)}
         reported = set().union(*events) if events else set()
-        if sched:
+        if expired_holders:
+            expected_reports.append(set(expired_holders))
+        delivered_reports.extend(events)
+        if deferred:
+            # the consumer is busy: reports may be delivered later; compared at the end of the history
+            for (k, t, h) in tbf:
+                if h in expired_holders:
+                    v.append(("slow-holder-queue", "%s: queued entry %s of timed-out holder %d survived" % (where, (k, t), h)))
+        elif sched:
             if expired_holders != reported or (expired_holders and len(events) != 1) or (not expired_holders and events):
                 v.append(("timeout-report", "%s: holders with timed-out fetches %s, FailedToFetchHolders events %s"
                           % (where, sorted(expired_holders), [sorted(e) for e in events])))
@@ -458,8 +559,27 @@ def oracle(c, o):
                 want_far = dist[op["k"]]
             if far != want_far:
                 v.append(("farthest-update", "%s: farthest acceptable distance is %s, expected %s" % (where, far, want_far)))
+        elif arm:
+            want_far = pre_far
+            if arm_far is not None and (pre_far is None or arm_far < pre_far):
+                want_far = arm_far
+            if far != want_far:
+                v.append(("farthest-update", "%s: store %s the record (farthest held %s): farthest acceptable distance is %s, "
+                          "expected %s" % (where, arm["res"], arm["far_dist"], far, want_far)))
+            # ---- once the store refused for MaxRecords nothing farther than its farthest record is fetched
+            if arm_far is not None:
+                for (h, k) in out:
+                    if dist[k] > arm_far:
+                        v.append(("full-node-fetch-emitted", "%s: the store is full (farthest held record at distance %d) and "
+                                  "refused key %d, yet the same command ordered a fetch of key %d at distance %d from holder %d"
+                                  % (where, arm_far, op["k"], k, dist[k], h)))
         elif far != pre_far:
             v.append(("farthest-update", "%s: farthest acceptable distance changed" % where))
+        if far is not None:
+            for (h, k) in out:
+                if dist[k] > far:
+                    v.append(("beyond-farthest", "%s: returned key %d (distance %d) is beyond the farthest acceptable "
+                              "distance %d" % (where, k, dist[k], far)))
         # ---- cap, closest first, maximality (batch = everything returned except a fast-path fetch)
         if sched:
             fastn = 1 if (kind == "add" and len(surv) == 1) else 0
@@ -515,6 +635,10 @@ def oracle(c, o):
         if kind == "range":
             if rng_ != int(op["r"]):
                 v.append(("range-update", "%s: range is %s" % (where, rng_)))
+        elif arm:
+            want = pre_range if arm["rng"] is None else int(arm["rng"])
+            if rng_ != want:
+                v.append(("range-update", "%s: range is %s, the store's responsible range is %s" % (where, rng_, arm["rng"])))
         elif rng_ != pre_range:
             v.append(("range-update", "%s: range changed" % where))
         # ---- liveness script
@@ -524,6 +648,14 @@ def oracle(c, o):
                                                  any(e[0] == live["k"] for e in op["held"])):
                 first_inflight_round = rounds
         pre_tbf, pre_ong, pre_far, pre_range, pre_now = tbf, ong, far, rng_, now
+    # ---- every timed-out holder is reported, exactly once, also when the event channel was full meanwhile
+    delivered_reports.extend(set(ev) for ev in o.get("late", []) if isinstance(ev, list))
+    if (deferred or o.get("late")) and delivered_reports != expected_reports:
+        cls = "timeout-report-lost" if len(delivered_reports) < len(expected_reports) else "timeout-report"
+        v.append((cls, "event channel of capacity %s (%s filler events): timed-out holders to report per pruning step %s, "
+                  "FailedToFetchHolders events delivered once the consumer drained the channel %s"
+                  % (c.get("chan"), c.get("prefill"), [sorted(e) for e in expected_reports],
+                     [sorted(e) for e in delivered_reports])))
     if live and rounds >= live["bound"] and first_inflight_round is None:
         v.append(("starved", "key %d re-advertised by a responsive holder in %d rounds was never fetched (bound %d)"
                   % (live["k"], rounds, live["bound"])))
@@ -552,7 +684,7 @@ def _op(op):
                                      _lst("(%s, T %d)" % (_k(e[0]), e[1]) for e in op["held"]))
     if k == "next":
         return "NextKeys"
-    if k == "put":
+    if k in ("put", "putarm"):
         return "NotifyPut %s (T %d)" % (_k(op["k"]), op["t"])
     if k == "early":
         return "NotifyEarly %s (T %d)" % (_k(op["k"]), op["t"])
@@ -569,31 +701,69 @@ def _opt(x):
     return "None" if x is None else "(Some %s)" % x
 
 
+def _out(st, events=True):
+    return "mkOut %s %s" % (_lst("(%d, %s)" % (p[0], _k(p[1])) for p in st["out"]),
+                            _lst(_lst(str(h) for h in ev) for ev in st["events"]) if events else "[]")
+
+
+def _post(st):
+    return "ST %s %s %s %s %s" % (
+        _lst("TE %s %d %d %s" % (_k(e[0]), e[1], e[2], e[3]) for e in st["tbf"]),
+        _lst("OE %s %d %d %s" % (_k(e[0]), e[1], e[2], e[3]) for e in st["ong"]),
+        _opt(st["range"]), _opt(st["far"]), st["now"])
+
+
 def model_term(c, o):
     if o is None:
         return None
     if "panic" in o:
         return "false"
+    if "peer" in o:
+        return None
+    deferred = bool(c.get("deferred"))
+    driver = c.get("mode") == "driver"
     steps = []
-    for st in o["steps"]:
+    for n, st in enumerate(o["steps"]):
         if any(p[0] < 0 or p[1] < 0 for p in st["out"]) or any(not isinstance(e, list) for e in st["events"]):
             return "false"
         if any(int(e[3]) < 0 or e[2] < 0 or e[0] < 0 for e in st["tbf"] + st["ong"]):
             return "false"
-        out = "mkOut %s %s" % (_lst("(%d, %s)" % (p[0], _k(p[1])) for p in st["out"]),
-                               _lst(_lst(str(h) for h in ev) for ev in st["events"]))
-        post = "ST %s %s %s %s %s" % (
-            _lst("TE %s %d %d %s" % (_k(e[0]), e[1], e[2], e[3]) for e in st["tbf"]),
-            _lst("OE %s %d %d %s" % (_k(e[0]), e[1], e[2], e[3]) for e in st["ong"]),
-            _opt(st["range"]), _opt(st["far"]), st["now"])
-        steps.append("(%s, %s, %s)" % (_op(st["op"]), out, post))
+        op = st["op"]
+        if op["op"] == "putarm":
+            if op["res"] == "ok":
+                res = "PutOk"
+            elif op["res"] == "max":
+                res = "(PutMaxRecords %s)" % ("None" if op["far_dist"] is None
+                                              else "(Some (K %d %s))" % (1000000 + n, op["far_dist"]))
+            else:
+                res = "PutErr"
+            steps.append("IArm %s %s (T %d) %s (%s) (%s)" % (res, _k(op["k"]), op["t"], _opt(op["rng"]), _out(st), _post(st)))
+        else:
+            stp = "(%s, %s, %s)" % (_op(op), _out(st, events=not deferred), _post(st))
+            steps.append("IStep %s" % stp if driver else stp)
     lets = "".join("let k%d := K %d %s in " % (i, i, d) for i, d in enumerate(o["dist"]))
-    return "%sagree_consts %s %s %s && run_ok init %s" % (lets, o["consts"][0], o["consts"][1], o["consts"][2],
-                                                        _lst(steps))
+    head = "%sagree_consts %s %s %s && " % (lets, o["consts"][0], o["consts"][1], o["consts"][2])
+    if driver:
+        return head + "run_items init %s" % _lst(steps)
+    if deferred:
+        delivered = [ev for st in o["steps"] for ev in st["events"]] + list(o.get("late", []))
+        if any(not isinstance(e, list) for e in delivered):
+            return "false"
+        return head + "agree_deferred %s %s" % (_lst(steps), _lst(_lst(str(h) for h in ev) for ev in delivered))
+    if o.get("late"):
+        return "false"          # a drained channel delivered something after the last step
+    return head + "run_ok init %s" % _lst(steps)
 
 
 def show(c, o):
     t = model_term(c, o)
+    if "run_ok init" not in t:
+        i = t.index("agree_consts")
+        if "agree_deferred" in t:
+            j = t.index("agree_deferred")
+            return t[:i] + "run_deferred init " + t[j + len("agree_deferred"):t.rindex(" [")]
+        j = t.index("run_items init")
+        return t[:i] + "diag init (expand init " + t[j + len("run_items init"):] + ")"
     i = t.index("agree_consts")
     j = t.index("run_ok init")
     return t[:i] + "(" + t[i:j - 4] + ", diag init " + t[j + len("run_ok init"):] + ")"
@@ -633,6 +803,15 @@ def run(ctx):
             % ("builds" if ok_aux else "DOES NOT BUILD: " + log_aux[-600:]))
     binary = ctx.cargo_build("c08")
     ctx.c08_consts = read_consts()
+    peers = {}
+
+    def c08_peer(seed):
+        # the driver's PeerId for a key-pair seed (ed25519 is not available to the generator)
+        if seed not in peers:
+            r = ctx.run_harness(binary, [{"mode": "peerinfo", "kp_seed": seed}]) if binary else None
+            peers[seed] = r[0]["peer"] if r and r[0] and "peer" in r[0] else "00"
+        return peers[seed]
+    ctx.c08_peer = c08_peer
     cases = ctx.corpus()
     if not ctx.replay:
         cases = [retime(c, ctx.c08_consts) for c in cases] + gen(ctx)
